@@ -155,7 +155,11 @@ let handle (toks : Stdlib.String.t list) : Stdlib.String.t =
       "updated"
   | "w" :: rest ->
       (match parse_cmd rest with
-       | Some c -> do_w c
+       | Some c ->
+           (* the reserved-field-name check on the stored (trimmed) name; field.Make trims *)
+           (match exec_n trim_ws true !r.r_live c with
+            | None -> "err:invalid"
+            | Some _ -> do_w (norm trim_ws c))
        | None -> (match parse_hcmd rest with Some c -> do_h c | None -> "?bad command"))
   (* an AOFSHRINK request: starts a rewrite, or is ignored while one is running *)
   (* a command of a packet that is still being processed: it stays in the write buffer *)
@@ -177,6 +181,43 @@ let handle (toks : Stdlib.String.t list) : Stdlib.String.t =
            let fi = { f_live = []; f_pend = [CFlushdb]; f_snap = []; f_slog = [] } in
            let (_, buf) = crash_atb fi c in
            (match buf with [] -> "empty" | _ -> "pending")
+       | _ -> "?bad crash point")
+  (* geoenc point <lat> <lon> | pointz <lat> <lon> <z> | rect <minlat> <minlon> <maxlat> <maxlon>, numbers as
+     nan / +inf / -inf / hex of the text of a finite number: the payload arguments of the snapshot record, and
+     whether the loader reads the same object back *)
+  | "geoenc" :: kind :: nums ->
+      let num t = match Stdlib.String.lowercase_ascii t with
+        | "nan" -> NaN | "+inf" -> PInf | "-inf" -> NInf | _ -> Fin (hx t) in
+      let ns = Stdlib.List.map num nums in
+      let g = (match kind, ns with
+        | "point", [y; x] -> Some (GPoint (y, x))
+        | "pointz", [y; x; z] -> Some (GPointZ (y, x, z))
+        | "rect", [a; b; c; d] -> Some (GRect (a, b, c, d))
+        | _ -> None) in
+      (match g with
+       | None -> "?bad geometry"
+       | Some g ->
+           let show = function NaN -> "NaN" | PInf -> "+Inf" | NInf -> "-Inf" | Fin t -> xh t in
+           let p = enc g in
+           let form = (match p with
+             | PObject (_, _) -> "object"
+             | PPoint a -> Stdlib.String.concat " " ("point" :: Stdlib.List.map show a)
+             | PBounds a -> Stdlib.String.concat " " ("bounds" :: Stdlib.List.map show a)) in
+           let back = (match dec p with Some g' -> if coords g' = coords g then "same" else "changed" | None -> "refused") in
+           form ^ " | " ^ back)
+  (* startupat <cpname> <legacy 0|1>: what the start-up serves after a crash there when a legacy file
+     with other data is (not) in the directory: acknowledged | legacy | empty | none *)
+  | ["startupat"; name; leg] ->
+      (match Stdlib.List.filter (fun c -> cp_name c = name) all_cpoints with
+       | [c] ->
+           let n97 = Conv.n_of_int 97 and n49 = Conv.n_of_int 49 and n120 = Conv.n_of_int 120 and n111 = Conv.n_of_int 111 in
+           let a = CSet ([n97], [n49], [], false, [n120]) and o = CSet ([n111], [n49], [], false, [n120]) in
+           let fi = { f_live = [a]; f_pend = []; f_snap = [a]; f_slog = [] } in
+           let dflt = [Conv.n_of_int 100] and legacy = [Conv.n_of_int 108] in
+           let rest = if leg = "1" then [(legacy, [o])] else [] in
+           (match startup startup_ops dflt legacy dflt (to_fs dflt (crash_at fi c) rest) with
+            | None -> "none"
+            | Some s -> if s = replay [a] [] then "acknowledged" else if s = replay [o] [] then "legacy" else if s = [] then "empty" else "other")
        | _ -> "?bad crash point")
   | ["req"] -> if !r.r_shrinking then (r := do_ev !mk !mi !r Req; "ignored") else (start_rewrite (); "started " ^ gate ())
   | ["begin"] -> if !r.r_shrinking then "?already shrinking" else (start_rewrite (); gate ())
